@@ -352,6 +352,7 @@ Fixpoint sem (fuel : nat) (env : list (bytes * value)) (e : sexpr) {struct fuel}
     | XProp l n =>
       sbind (sem f env l) (fun a =>
         match a with VObj m => lookup_prop m n | _ => SErr end)
+    | XCall (XStr lit _) [114; 97; 119] [] => SVal (VStr lit)    (* "lit".raw() is the original text *)
     | XCall r fn args =>
       sbind (sem f env r) (fun rv =>
         match sems args with
